@@ -64,10 +64,10 @@ def rows_of(code):
     return out
 
 
-def write_csv(path, rows, rng):
+def write_csv(path, rows, rng, shift_days=0):
     from .broker_rig import EPOCH
     import pandas as pd
-    rows = list(rows)
+    rows = [(dd + shift_days, o, c, a) for dd, o, c, a in rows]
     rng.shuffle(rows)
     with open(path, "w") as fh:
         fh.write("Date,Open,High,Low,Close,Adj Close,Volume\n")
@@ -106,7 +106,11 @@ def confront(job):
     n = 0
     try:
         SYMBOL = SYMBOLS[(sum(code) // 3) % len(SYMBOLS)]
-        write_csv(os.path.join(d, SYMBOL + ".csv"), rows_of(code), rng)
+        # every other file lives 26 weeks later (same weekdays; July instead of January): bars are stamped 14:30 / 21:00 UTC
+        # all year round
+        season = 182 if (sum(code) // 2) % 2 else 0
+        sm = season * 1440
+        write_csv(os.path.join(d, SYMBOL + ".csv"), rows_of(code), rng, season)
         asset = "EQ:" + SYMBOL
         # other symbols in the same directory (their names extend / are a prefix of SYMBOL, their rows are other rows at
         # other prices, one day later) must not influence what is answered for SYMBOL; the directory is loaded with an
@@ -116,7 +120,7 @@ def confront(job):
             for nb_, shift in ((SYMBOL + "L", 1), (SYMBOL[:-1], 2)):
                 other = [(dd + shift, None if o is None else o + 31 * shift, None if c is None else c + 17 * shift,
                           None if a is None else a + 5 * shift) for dd, o, c, a in rows_of(tuple(reversed(code)))]
-                write_csv(os.path.join(d, nb_ + ".csv"), other, rng)
+                write_csv(os.path.join(d, nb_ + ".csv"), other, rng, season)
         symlist = [[SYMBOL], None, [SYMBOL + "L", SYMBOL]][mode]
         for adjust in (False, True):
             exp = expected[adjust]
@@ -139,7 +143,9 @@ def confront(job):
                     ds = CSVDailyBarDataSource(d, Equity, adjust_prices=adjust, csv_symbols=symlist)
                     dh = BacktestDataHandler(None, data_sources=[ds])
                 for t in order:
-                    T = ts(t)
+                    T = ts(t + sm)
+                    if (t // 7) % 3 == 0:
+                        T = T.tz_convert(["Asia/Tokyo", "America/New_York", "Europe/Berlin"][(t // 21) % 3])   # the same instant in another zone
                     got = {}
                     try:
                         got["get_bid"] = ds.get_bid(T, asset)
@@ -164,13 +170,13 @@ def confront(job):
         d2 = tempfile.mkdtemp(prefix="qsv-mkt-rec-")
         try:
             rows = [(dd, alias.get(o, o), alias.get(c, c), a) for dd, o, c, a in rows_of(code)]
-            write_csv(os.path.join(d2, SYMBOL + ".csv"), rows, rng)
+            write_csv(os.path.join(d2, SYMBOL + ".csv"), rows, rng, season)
             try:
                 ds = CSVDailyBarDataSource(d2, Equity, adjust_prices=False, csv_symbols=[SYMBOL])
                 for t in sorted(expected[False]):
                     e = expected[False][t]
                     e = (alias.get(e[0], e[0]), e[1]) if e[1] == 1 else e
-                    for k, v in (("get_bid", ds.get_bid(ts(t), asset)), ("get_ask", ds.get_ask(ts(t), asset))):
+                    for k, v in (("get_bid", ds.get_bid(ts(t + sm), asset)), ("get_ask", ds.get_ask(ts(t + sm), asset))):
                         n += 1
                         if not _same(v, e):
                             out.append((code, False, t, k + "(recurring prices)", "returned %r, expected %s" % (
